@@ -40,6 +40,9 @@ theorem gen_sequential : Gen.C19.seqIter = "self._cfs.items()" ∧ Gen.C19.seqTa
     Gen.C19.seqBody = ["args = self._process_args_dict(cf, uri, args_dict)", "func(*args)"] := by decide
 theorem gen_parallel : Gen.C19.parTry = ["self.parallel_safe(func, args_dict)"] ∧ Gen.C19.parHandlerType = "Exception" ∧
     Gen.C19.parHandlerBody = ["pass"] := by decide
+/-- open_links: the 'Already opened' guard is evaluated BEFORE the try (its raise must not run the failure clean-up) -/
+theorem gen_open_guard_position : Gen.C19.openGuardInTry = false ∧ Gen.C19.openShape = ["If", "Try"] ∧
+    Gen.C19.openAfterTry = [] := by decide
 theorem gen_open_links : Gen.C19.openGuard = "self._is_open" ∧ Gen.C19.openGuardBody = ["raise Exception('Already opened')"] ∧
     Gen.C19.openTry = ["self.parallel_safe(lambda scf: scf.open_link())", "self._is_open = True"] ∧
     Gen.C19.openHandler = "Exception as e" ∧ Gen.C19.openHandlerBody = ["self.close_links()", "raise e"] := by decide
@@ -303,7 +306,7 @@ theorem open_failure_closes_all_and_raises (cfs : List (Uri × Member)) (conn : 
 a thread, calling a member or changing any state (under every schedule) ... -/
 theorem no_double_open (cfs : List (Uri × Member)) (st : SwarmState) (conn : Uri → Bool) (sch : List Nat)
     (hopen : st.isOpen = true) : runOp cfs st (.openLinks conn) sch = some (st, [], some .alreadyOpened) := by
-  simp [runOp, hopen]
+  simp [runOp, hopen, gen_openGuardInTry]
 
 /-- ... and every successful `open_links` sets `_is_open`; so a second `open_links` after a successful one raises. -/
 theorem open_twice_raises (cfs : List (Uri × Member)) (st st' : SwarmState) (conn conn' : Uri → Bool) (sch sch' : List Nat)
@@ -327,6 +330,138 @@ theorem open_twice_raises (cfs : List (Uri × Member)) (st st' : SwarmState) (co
         rw [← hst]; exact this
       · cases h
     · cases h
+
+/-! ### Histories of calls on one Swarm object -/
+
+/-- every link of the swarm is in the state the swarm's own `_is_open` flag says (true of a fresh Swarm, `fresh_wf`) -/
+def Wf (cfs : List (Uri × Member)) (st : SwarmState) : Prop := ∀ i, i < cfs.length → st.mem i = st.isOpen
+
+/-- the specification of `_is_open` after one call, from its value before and the call's result: a successful open
+sets it, a failed open and a close clear it, an open on an open swarm (rejected) and every other call leave it -/
+def specStep (flag : Bool) : Op → Option Exc → Bool
+  | .openLinks _, r => if flag then true else r.isNone
+  | .closeLinks, _ => false
+  | _, _ => flag
+
+/-- ... and after a history: "open iff the last successful open was not followed by a close (or a failed open)" -/
+def specFlag : Bool → List Op → List (Option Exc) → Bool
+  | flag, op :: ops, r :: rs => specFlag (specStep flag op r) ops rs
+  | flag, _, _ => flag
+
+theorem fresh_wf (cfs : List (Uri × Member)) : Wf cfs fresh ∧ fresh.isOpen = false := by
+  refine ⟨fun i _ => ?_, gen_initIsOpen⟩
+  simp [fresh, gen_initIsOpen, gen_scfInitIsOpen]
+
+/-- **One call of a history**, under every schedule: the links stay consistent with `_is_open`, `_is_open` follows the
+specification, an `open_links` is rejected ('Already opened') iff the swarm is open, and a rejected open is the
+identity on the whole state and calls nothing. -/
+theorem call_state (cfs : List (Uri × Member)) (st st' : SwarmState) (op : Op) (sch : List Nat) (tr : List Ev)
+    (r : Option Exc) (hwf : Wf cfs st) (h : runOp cfs st op sch = some (st', tr, r)) :
+    Wf cfs st' ∧ st'.isOpen = specStep st.isOpen op r ∧
+    (∀ conn, op = .openLinks conn → (r = some .alreadyOpened ↔ st.isOpen = true) ∧
+        (st.isOpen = true → st' = st ∧ tr = [])) := by
+  cases op with
+  | closeLinks =>
+    simp only [runOp, Option.some.injEq, Prod.mk.injEq] at h
+    obtain ⟨hst, _, _⟩ := h
+    obtain ⟨ho, hm⟩ := closeLinks_spec cfs st
+    subst hst
+    exact ⟨fun i hi => by rw [hm i hi, ho], by simp [specStep, ho], fun conn hc => by cases hc⟩
+  | sequential a f =>
+    simp only [runOp, Option.some.injEq, Prod.mk.injEq] at h
+    obtain ⟨hst, _, _⟩ := h
+    subst hst
+    exact ⟨hwf, rfl, fun conn hc => by cases hc⟩
+  | parallelSafe a f =>
+    simp only [runOp] at h
+    split at h
+    · next c hc =>
+      split at h
+      · next r' hm =>
+        simp only [Option.some.injEq, Prod.mk.injEq] at h
+        obtain ⟨hst, _, _⟩ := h
+        obtain ⟨ho, hmem⟩ := user_exec_state (by simp) hc
+        subst hst
+        exact ⟨fun i hi => by simp only [hmem i, ho]; exact hwf i hi, by simp [specStep, ho], fun conn hc' => by cases hc'⟩
+      · cases h
+    · cases h
+  | parallel a f =>
+    simp only [runOp] at h
+    split at h
+    · next c hc =>
+      split at h
+      · next r' hm =>
+        simp only [Option.some.injEq, Prod.mk.injEq] at h
+        obtain ⟨hst, _, _⟩ := h
+        obtain ⟨ho, hmem⟩ := user_exec_state (by simp) hc
+        subst hst
+        exact ⟨fun i hi => by simp only [hmem i, ho]; exact hwf i hi, by simp [specStep, ho], fun conn hc' => by cases hc'⟩
+      · cases h
+    · cases h
+  | openLinks conn =>
+    cases hopen : st.isOpen with
+    | true =>
+      rw [no_double_open cfs st conn sch hopen] at h
+      simp only [Option.some.injEq, Prod.mk.injEq] at h
+      obtain ⟨hst, htr, hr⟩ := h
+      subst hst; subst htr; subst hr
+      refine ⟨hwf, by simp [specStep, hopen], fun conn' _ => ⟨by simp, fun _ => ⟨rfl, rfl⟩⟩⟩
+    | false =>
+      simp only [runOp, hopen, Bool.false_eq_true, if_false] at h
+      split at h
+      · next c hc =>
+        split at h
+        · next r' hm =>
+          simp only [Option.some.injEq, Prod.mk.injEq] at h
+          obtain ⟨hst, _, hr⟩ := h
+          subst hr
+          have hclosed : ∀ i, i < cfs.length → st.mem i = false := fun i hi => by rw [hwf i hi, hopen]
+          obtain ⟨hfail, hok⟩ := open_failure_closes_all_and_raises cfs conn st sch c r' hc hm
+          by_cases hex : ∃ i u m, cfs[i]? = some (u, m) ∧ openFails st conn i u
+          · obtain ⟨⟨e, _, _, _, hre, _⟩, hmem, hso⟩ := hfail hex
+            subst hst
+            refine ⟨fun i hi => by simp only [hmem i hi, hso], by simp [specStep, hre, hso], fun conn' _ => ⟨by simp [hre], fun hh => by cases hh⟩⟩
+          · have hno : ∀ i u m, cfs[i]? = some (u, m) → ¬ openFails st conn i u := fun i u m hi hf => hex ⟨i, u, m, hi, hf⟩
+            obtain ⟨hre, hmem, hso⟩ := hok hno
+            subst hst
+            refine ⟨fun i hi => by simp only [hmem i hi, hso], by simp [specStep, hre, hso], fun conn' _ => ⟨by simp [hre], fun hh => by cases hh⟩⟩
+        · cases h
+      · cases h
+
+/-- **Any history of swarm-wide calls on one Swarm** (opens with any connection outcomes, closes, actions; any schedule
+for each call): at the end every link is open iff `_is_open`, and `_is_open` is what the specification says - the swarm
+is open iff the last successful `open_links` was not followed by a close or a failed open; rejected opens in between
+do not change anything. -/
+theorem history_state (cfs : List (Uri × Member)) :
+    ∀ (hist : List (Op × List Nat)) (st0 st : SwarmState) (rs : List (Option Exc)), Wf cfs st0 →
+      runHist cfs st0 hist = some (st, rs) →
+      Wf cfs st ∧ st.isOpen = specFlag st0.isOpen (hist.map Prod.fst) rs ∧ rs.length = hist.length := by
+  intro hist
+  induction hist with
+  | nil =>
+    intro st0 st rs hwf h
+    simp only [runHist, Option.some.injEq, Prod.mk.injEq] at h
+    obtain ⟨h1, h2⟩ := h
+    subst h1; subst h2
+    exact ⟨hwf, rfl, rfl⟩
+  | cons hd rest ih =>
+    intro st0 st rs hwf h
+    obtain ⟨op, sch⟩ := hd
+    simp only [runHist] at h
+    split at h
+    · cases h
+    · next st1 tr r hop =>
+      split at h
+      · cases h
+      · next st2 rs' hrest =>
+        simp only [Option.some.injEq, Prod.mk.injEq] at h
+        obtain ⟨h1, h2⟩ := h
+        subst h1; subst h2
+        obtain ⟨hwf1, hflag1, _⟩ := call_state cfs st0 st1 op sch tr r hwf hop
+        obtain ⟨hwf2, hflag2, hlen⟩ := ih st1 st2 rs' hwf1 hrest
+        refine ⟨hwf2, ?_, by simp [hlen]⟩
+        simp only [List.map_cons, specFlag]
+        rw [← hflag1]; exact hflag2
 
 /-- **The join and the error collection are race-free: no interleaving deadlocks** - as long as the call has not
 finished some thread can step ... -/
@@ -377,6 +512,13 @@ example : (sequential (mkSwarm [5, 7]) exD exF) =
 /-- open_links with member 7 failing to connect: both closed again, not open, chained from the connection failure -/
 example : ((runOp (mkSwarm [5, 7]) exSt (.openLinks fun u => u != 7) [0, 0, 0, 1, 2, 1, 2, 2, 2, 0, 0, 0, 0, 0, 0, 0, 0]).map
     fun r => (r.1.isOpen, r.1.mem 0, r.1.mem 1, r.2.2)) = some (false, false, false, some (.chained (.connFailed 7))) := by decide
+/-- a history on one swarm: open, rejected open (identity), rejected open, close, failed open, open, rejected open -/
+example : (runHist (mkSwarm [5]) fresh
+    [(.openLinks fun _ => true, [0, 0, 1, 1, 0, 0, 0, 0]), (.openLinks fun _ => true, []), (.openLinks fun _ => false, []), (.closeLinks, []),
+     (.openLinks fun _ => false, [0, 0, 1, 1, 1, 1, 0, 0, 0, 0, 0, 0]), (.openLinks fun _ => true, [0, 0, 1, 1, 0, 0, 0, 0]), (.openLinks fun _ => true, [])]).map
+    (fun r => (r.1.isOpen, r.1.mem 0, r.2)) =
+    some (true, true, [none, some .alreadyOpened, some .alreadyOpened, none, some (.chained (.connFailed 5)), none, some .alreadyOpened]) := by
+  decide
 example : openFails exSt (fun u => u != 7) 1 7 := .inr (by decide)
 /-- outside the property (malformed dictionary): with a missing entry parallel_safe raises KeyError while the thread it
 already started is still running - `ArgsOk` is a real hypothesis of `parallel_safe_returns_after_all` -/
